@@ -67,7 +67,7 @@ Theorem C09_conflict_free_exact : forall U P, WF U -> forall db G,
   req_true_ok [] evs = true ->
   run_events (pr_soft P) db (trail_events evs) [] = Some ents ->
   check_sat U P db (tlits ents) sol = true ->
-  enc_final_ok U st (sel_of (tlits ents)) (exempt P (sel_of (tlits ents))) = true ->
+  enc_final_ok U st (sel_of (tlits ents)) (exempt U P (sel_of (tlits ents))) = true ->
   same_set sol G /\
   (forall s, In (CDeps s) (e_calls st) <-> In s G) /\
   (forall n, In (CCands n) (e_calls st) <->
